@@ -360,31 +360,42 @@ Definition withdraw_reward (s : state) (a rw : Z) : res :=
   end.
 
 (* ---------------- UnbondedOracle ---------------- *)
-Definition unbond (s : state) (a : Z) : res :=
+(* Two points of this handler are re-read from msg_server.go on every run (gen/Gen_OracleSlash.v) and are explicit
+   parameters of the transcription, so that each variant can also be spoken about on its own:
+   [ne]  (unbond_needs_entry)     true  = `if _, err = GetUnbondingDelegation(...); err != nil { return nil, err }`:
+                                          refused UNLESS an unbonding entry of (delegate address, validator) still exists
+                                          (the tree before the C13-1 fix);
+                                  false = refused WHILE one exists;
+   [cap] (unbond_penalty_capped)  false = `if balance < penalty { return "not sufficient slash amount" }`;
+                                  true  = `if balance < penalty { penalty = balance }` (the C13-3 patch). *)
+Definition charged (cap : bool) (sl0 bal : Z) : Z :=
+  let sl := if cap then Z.min sl0 bal else sl0 in
+  if 0 <? sl then sl else 0.
+
+Definition unbond_gen (ne cap : bool) (s : state) (a : Z) : res :=
   if memZ a (proposal s) then Err e_invalid
   else match recs s a with
   | None => Err e_notfound
   | Some r =>
     if o_online r then Err e_invalid
-    (* `if _, err = GetUnbondingDelegation(...); err != nil { return nil, err }` : the call is refused
-       unless an unbonding entry of (delegate address, validator) STILL EXISTS.  The shape of this test is
-       re-read from msg_server.go on every run ([unbond_needs_entry], gen/Gen_OracleSlash.v); with the
-       condition the other way round the call is refused while an entry exists. *)
-    else if negb (Bool.eqb (has_ubd a (o_val r) (ubds s)) unbond_needs_entry) then Err e_staking
+    else if negb (Bool.eqb (has_ubd a (o_val r) (ubds s)) ne) then Err e_staking
     else
       let bal := bal_d s a in
-      let sl := slash_amount r (p_fraction (prm s)) in
-      if (0 <? sl) && (bal <? sl) then Err e_invalid
+      let sl0 := slash_amount r (p_fraction (prm s)) in
+      if negb cap && (0 <? sl0) && (bal <? sl0) then Err e_invalid
       else
-        let send := bal - (if 0 <? sl then sl else 0) in
+        let ch := charged cap sl0 bal in
         Ok (mkState (height s) (now s) (ubtime s) (vals s) (prm s) (proposal s) (remZ a (keys s))
               (upd (recs s) a None) (upd (by_bridger s) (o_bridger r) None) (upd (by_ext s) (o_ext r) None)
               (total_power s) (deleg s) (ubds s) (reds s)
-              (upd (bal_o s) a (bal_o s a + send)) (upd (bal_d s) a 0)
+              (upd (bal_o s) a (bal_o s a + (bal - ch))) (upd (bal_d s) a 0)
               (sets s) (latest_set s) (slashed_set s) (last_slash_height s) (batches s)
               (slashed_batch_block s) (calls s) (slashed_call s) (next_call s)
-              (burned s + (if 0 <? sl then sl else 0)) (gov_und s) (set_mem s) (last_obs s))
+              (burned s + ch) (gov_und s) (set_mem s) (last_obs s))
   end.
+
+(* the handler of the checked tree *)
+Definition unbond (s : state) (a : Z) : res := unbond_gen unbond_needs_entry unbond_penalty_capped s a.
 
 (* ---------------- UpdateChainOracles / UpdateProposalOracles ---------------- *)
 Definition lookup_rw (a : Z) (rws : list (Z * Z)) : Z :=
@@ -845,6 +856,14 @@ Definition exec (s : state) (o : op) : state :=
   match step s o with Ok s' => s' | Err _ => s | Panic => s end.
 
 Definition run (s : state) (ops : list op) : state := fold_left exec ops s.
+
+(* the same machine with the two UnbondedOracle parameters given explicitly (to state and evaluate what each variant
+   does, whatever the checked tree says) *)
+Definition step_with (ne cap : bool) (s : state) (o : op) : res :=
+  match o with Unbond a => unbond_gen ne cap s a | _ => step s o end.
+Definition exec_with (ne cap : bool) (s : state) (o : op) : state :=
+  match step_with ne cap s o with Ok s' => s' | Err _ => s | Panic => s end.
+Definition run_with (ne cap : bool) (s : state) (ops : list op) : state := fold_left (exec_with ne cap) ops s.
 
 Definition init (h t ub : Z) (vs : vset) (p : params) : state :=
   mkState h t ub vs p [] [] (fun _ => None) (fun _ => None) (fun _ => None) 0
